@@ -470,14 +470,16 @@ class ConfigParser(object):
   def _check_for_duplicate_pairs(self):
     """Check the config parser for duplicate pair entries"""
 
-    if self._config_parser.has_section("Pair"):
-      seen = set()
-      for k in self._config_parser["Pair"]:
-        p = self._pair_species_func(k)
-        rev_p = tuple(reversed(list(p)))
-        if (p in seen) or (rev_p in seen):
-          raise ConfigParserDuplicateEntryException("Multiple entries for the pair {A}-{B} found in [Pair] section.".format(A= p[0], B=p[1]))
-        seen.add(p)
+    # ... the dipole and quadrupole functions of an ADP model are given per pair of species like pair potentials
+    for section_name in ["Pair", "EAM-ADP-Dipole", "EAM-ADP-Quadrupole"]:
+      if self._config_parser.has_section(section_name):
+        seen = set()
+        for k in self._config_parser[section_name]:
+          p = self._pair_species_func(k)
+          rev_p = tuple(reversed(list(p)))
+          if (p in seen) or (rev_p in seen):
+            raise ConfigParserDuplicateEntryException("Multiple entries for the pair {A}-{B} found in [{section}] section.".format(A= p[0], B=p[1], section = section_name))
+          seen.add(p)
 
   def _check_for_duplicate_table_forms(self):
     _TableFormSection.check_for_duplicate_table_forms(self._config_parser)
